@@ -76,6 +76,7 @@ func registerIntercepts(ex *Explorer) {
 		}
 		return newU256(c, t)
 	})
+	ex.register(zz+"Thorough", func(fr *frame, args []value) value { return fr.i.ctx.ex.Thorough })
 	ex.register(zz+"Symbolic", func(fr *frame, args []value) value { return true })
 	ex.register(zz+"Choose", func(fr *frame, args []value) value {
 		c := fr.i.ctx
